@@ -29,8 +29,50 @@ import (
 	"github.com/arnodel/golua/code"
 	"github.com/arnodel/golua/ir"
 	"github.com/arnodel/golua/ircomp"
+	"github.com/arnodel/golua/lib"
 	rt "github.com/arnodel/golua/runtime"
 )
+
+// regpool: <id> <n> <hex source> -> <id> ok <results> | error <msg hex> | gopanic <msg hex>
+// runs the chunk on runtime.New(w, runtime.WithRegPoolSize(n)): an exported, documented option must not crash the host
+func regpoolEngine(in *bufio.Scanner, out *bufio.Writer) {
+	for in.Scan() {
+		f := strings.Fields(in.Text())
+		if len(f) < 3 {
+			continue
+		}
+		n, _ := strconv.Atoi(f[1])
+		src, _ := hex.DecodeString(f[2])
+		func() {
+			defer func() {
+				if r := recover(); r != nil {
+					fmt.Fprintln(out, f[0], "gopanic", hex.EncodeToString([]byte(fmt.Sprint(r))))
+				}
+				out.Flush()
+			}()
+			r := rt.New(nil, rt.WithRegPoolSize(uint(n)))
+			cleanup := lib.LoadAll(r)
+			defer cleanup()
+			t := r.MainThread()
+			clos, err := t.LoadFromSourceOrCode("chunk", src, "t", rt.TableValue(r.GlobalEnv()), false)
+			if err != nil {
+				fmt.Fprintln(out, f[0], "compile_error", hex.EncodeToString([]byte(err.Error())))
+				return
+			}
+			term := rt.NewTerminationWith(nil, 0, true)
+			if err := rt.Call(t, rt.FunctionValue(clos), nil, term); err != nil {
+				fmt.Fprintln(out, f[0], "error", hex.EncodeToString([]byte(err.Error())))
+				return
+			}
+			parts := []string{}
+			for _, v := range term.Etc() {
+				s, _ := v.ToString()
+				parts = append(parts, s)
+			}
+			fmt.Fprintln(out, f[0], "ok", strings.Join(parts, ","))
+		}()
+	}
+}
 
 // codelen: <id> <hex source> -> <id> <max number of opcodes of one function> <number of constants> | <id> err
 // (compiles with the real pipeline; used to decide whether a program is beyond the int16 code limit)
@@ -389,6 +431,8 @@ func main() {
 		codelenEngine(in, out, false)
 	case "dump":
 		codelenEngine(in, out, true)
+	case "regpool":
+		regpoolEngine(in, out)
 	case "lua":
 		// GVH_MAXSTACK=<bytes>: lower Go's per-goroutine stack limit (default 1 GB) so that
 		// unbounded Go recursion is observed as "fatal error: stack overflow" quickly
